@@ -21,6 +21,22 @@ CHECKS = {
          "Machine-checked proof: lt is a strict weak order on (class name, printed tuple) keys (lt_irrefl, lt_trans, lt_trichotomy), le_iff_not_lt, sort_canonical (sorted table depends only on the multiset of rows), renumber_invariant / renumber_invariant_refs (normalised tables invariant under injective id renumbering + row permutation), eq_implies_same_fields, eq_no_error with witness eq_na_witness. Tie: all pairs of a value pool (operators vs model, trichotomy, eq=>hash, no exception), pandas sort_values vs the model's sortRows, real UAGraph shuffled and renumbered.",
          "Trusted: Lean kernel, CPython str ordering and dataclass eq/hash, pandas sort_values, driver, harness. Known finding D-C14a (== raises with one-sided pd.NA).",
          "DESIGN.md section 3 C14"),
+ "C01": ("Lean 4 theorems about a hand model of iterparse_xml / process_elem_batch / parse_node_attrib / get_attrib_df / the browse-name split + differential correspondence against /repo with the generator's abstract graph as oracle",
+         "Machine-checked proof: rows_pointwise (one row per node element, row i from element i), batch_invariant (result independent of the batch size, for every document), row_fields / attrs_exact (every field and attribute of the element, none added or dropped), browse_split_partial (+ witness of finding D-C01a), rstrip_spec, firstText_spec, node_ref_attr_denotes, absent_attr_missing. Tie: ~110 generated document sets per quick run parsed by the real code and by the model (rows compared cell by cell), each also compared with the abstract graph it was serialised from; iterparse_xml with small batch sizes; thorough adds a 52 000-node document crossing the real batch.",
+         "Trusted: Lean kernel, lxml (text -> infoset), list model of pandas from_records/convert_dtypes/astype, driver, harness, generator. Recorded findings D-C01a..i are printed as KNOWN-FINDING and excluded from the supported domain.",
+         "DESIGN.md section 3 C01"),
+ "C02": ("Lean 4 theorems about a hand model of findrefs / fix_ref_attrib / explode / IsForward swap / drop_duplicates + differential correspondence and metamorphic serialisation check against /repo",
+         "Machine-checked proof: refs_sound_complete (table = declared relation, nothing lost or invented, dangling end points kept), refs_nodup, parseRef_oriented, serialisation_perm, files_refs (union over files, each triple once). Tie: generated relations serialised several ways (source/target/both, forward/inverse, alias/literal, one or two files), real table vs model vs abstract relation.",
+         "Trusted: Lean kernel, lxml infoset, list model of pandas explode/drop_duplicates, driver, harness, generator.",
+         "DESIGN.md section 3 C02"),
+ "C03": ("Lean 4 theorems about a hand model of extend_namespace_map, the namespace_map dict, the UA-namespace insertion and _get_namespace_list + differential correspondence and metamorphic permutation check against /repo",
+         "Machine-checked proof: extend_prefix / caller_prefix, extend_nodup, extend_mem, extend_correct, head_is_ua, lookup_nsMapOf, parsed_id_denotes (an id written with local index k+1 gets the global index of the document's k-th URI), undeclared_index_rejected, denotation_independent, earlier_ids_stable, namespaceList_at. Tie: document sets under permuted NamespaceUris, both file orders and seven caller-list shapes; resolved content must be identical and equal to the abstract graph; the two helper functions compared directly with the model.",
+         "Trusted: Lean kernel, lxml infoset, Python list.index/dict, driver, harness, generator. Hypothesis: caller list starts with the OPC UA namespace.",
+         "DESIGN.md section 3 C03"),
+ "C04": ("Lean 4 theorems about a hand model of normalize_wrt_nodeid (factorize + get_indexer) + differential correspondence (exact ids) against /repo",
+         "Machine-checked proof: lookup_nodup, code_roundtrip, code_injective, code_sound, id_of_row, rows_ids_injective, refs_denormalize, attr_denormalize, absent_stays_absent, shape. Tie: generated document sets (ids occurring only as attribute targets / reference types, dangling ids) and synthetic frame pairs; the real lookup table, ids and denormalised columns vs the model and vs the bijection predicates evaluated directly.",
+         "Trusted: Lean kernel, list model of pandas factorize/get_indexer, driver, harness.",
+         "DESIGN.md section 3 C04"),
 }
 PENDING_REASON = "check not built yet in this session; planned as a Lean model + correspondence check (DESIGN.md section 3)"
 
